@@ -472,7 +472,7 @@ func TestC11(t *testing.T) {
 	n := vh.Pick(40, 600)
 	for i := 0; i < n; i++ {
 		c11scenario(rep, seed, i)
-		if rep.NViolations() > 20 {
+		if rep.NViolations() > 4 {
 			break
 		}
 	}
